@@ -103,7 +103,8 @@ func c02Run(c *fw.Ctx) {
 			c.Violation("C02|"+kind+"|"+clause, detail+fmt.Sprintf(" stream=%s splits=%v stride=%d", trunc(stream, 80), splits, stride), c02Case{Stream: stream, Splits: splits, Stride: stride})
 		}
 	}
-	seqs := func(f func(idx []int)) {
+	var seqs func(f func(idx []int))
+	seqs = func(f func(idx []int)) {
 		n := len(vals)
 		for a := 0; a < n; a++ {
 			f([]int{a})
@@ -117,6 +118,22 @@ func c02Run(c *fw.Ctx) {
 			for b := 0; b < n; b++ {
 				for d := 0; d < n; d++ {
 					f([]int{a, b, d})
+				}
+			}
+		}
+	}
+	if c.Thorough() {
+		// sequences of four values over the first 12 (shortest, most delimiter-heavy) values
+		inner := seqs
+		seqs = func(f func(idx []int)) {
+			inner(f)
+			for a := 0; a < 12; a++ {
+				for b := 0; b < 12; b++ {
+					for d := 8; d < 20; d++ {
+						for e := 20; e < 32; e++ {
+							f([]int{a, b, d, e})
+						}
+					}
 				}
 			}
 		}
@@ -147,6 +164,15 @@ func c02Run(c *fw.Ctx) {
 			for k := 1; k < len(stream); k++ {
 				for l := k + 1; l < len(stream); l++ {
 					run(stream, want, bounds, []int{k, l}, 0, "3way")
+				}
+			}
+		}
+		if c.Thorough() && len(stream) <= 28 {
+			for k := 1; k < len(stream); k++ {
+				for l := k + 1; l < len(stream); l++ {
+					for m := l + 1; m < len(stream); m++ {
+						run(stream, want, bounds, []int{k, l, m}, 0, "4way")
+					}
 				}
 			}
 		}
@@ -182,7 +208,7 @@ func init() {
 	fw.Register(&fw.Prop{
 		ID:    "C02",
 		Level: "exploration",
-		Rule:  "streams = all concatenations of 1..3 values from a 40-value representative set (every type; CRLF/prefix-looking bulk bodies; empty/null bulks; empty, nested, mixed arrays; multi-digit lengths and counts); delivery scripts = whole, EVERY 2-way split offset, every 3-way split for streams <=48 bytes (thorough <=96), strides 1/2/3/5/7, split after every CR. A case (stream, script) is non-trivial when at least one split falls strictly inside a value.",
+		Rule:  "streams = all concatenations of 1..3 values from a 40-value representative set (every type; CRLF/prefix-looking bulk bodies; empty/null bulks; empty, nested, mixed arrays; multi-digit lengths and counts); delivery scripts = whole, EVERY 2-way split offset, every 3-way split for streams <=48 bytes (thorough <=96, plus every 4-way split for streams <=28 bytes and 20736 four-value sequences), strides 1/2/3/5/7, split after every CR. A case (stream, script) is non-trivial when at least one split falls strictly inside a value.",
 		Assumptions: []string{
 			"Read never returns (0,nil) or (n>0,EOF): neither net.TCPConn nor tls.Conn does",
 			"random k-way partitions of the quantifier are not claimed",
